@@ -177,7 +177,12 @@ def free_running(ctx, mode):
     release = threading.Event()
 
     def slow_get(url, **kw):
-        if mode == "hang":
+        if mode == "hang-clock-back":
+            # the wall clock is set back by an hour while the request is pending (end of daylight saving time seen through
+            # naive local times, a clock correction): only elapsed real time may govern how long the command waits
+            sub.NOW[0] -= 3600
+            release.wait(8)
+        elif mode == "hang":
             release.wait(30)
         else:
             time.sleep(0.5)
@@ -188,6 +193,8 @@ def free_running(ctx, mode):
     try:
         import ascmhl.cli.update as U
         importlib.reload(U)
+        sub.rebind_clock()   # (the reloaded module reads the injected clock as well)
+        sub.NOW[0] = sub.NOW0
         for group, attr, args in (("ascmhl", "mhltool_cli", ["info", ok]), ("ascmhl_debug", "mhldebugtool_cli", ["hash", ok + "/a.txt", "-h", "md5"])):
             t0 = time.time()
             b = CliRunner(mix_stderr=False).invoke(getattr(importlib.import_module("ascmhl.commands"), args[0]), args[1:])
@@ -405,7 +412,7 @@ def main(tier, seed):
                      else f"stateless, <= {case['bound']} preemptions"})
     for rr in runs[:: max(1, len(runs) // 5)]:
         eng.sample(rr)
-    free = eng.pmap(work_free, ["hang", "slow"] + list(HOSTILE) + SEQUENCES, chunksize=1)
+    free = eng.pmap(work_free, ["hang", "slow", "hang-clock-back"] + list(HOSTILE) + SEQUENCES, chunksize=1)
     for lst in [x for x in free if x and x[0][0] == "process"]:
         pv = process_viols(lst[0][1])
         eng.outcome(("free-running", "whole process", "viol" if pv else "ok"))
@@ -417,7 +424,7 @@ def main(tier, seed):
         eng.outcome(("free-running", "hostile version string", "viol" if hv else "ok"))
         eng.add_viols(hv)
     free = [x for x in free if not (x and x[0][0] == "hostile")] + [[list(x[0][1])] for x in free if x and x[0][0] == "hostile"]
-    for lst in free[:2]:
+    for lst in free[:3]:
         for group, mode, overhead, ex, bex, same in lst:
             eng.outcome(("free-running", mode, "ok" if overhead < 2.5 and ex == bex and same else "viol"))
             if overhead >= 2.5 or ex != bex or not same:
